@@ -129,6 +129,7 @@ def gen(rng, tier, profile, count):
             add_polys(rng, c, s, n)
             if profile == "c02":
                 add_mutations(rng, c, n, MUT_STATEMENT, 4)
+                add_batches(rng, c, n, 3)
             elif profile == "c03":
                 add_mutations(rng, c, n, MUT_PROOF, 4)
             elif profile == "c10":
